@@ -72,6 +72,23 @@ theorem C18_put_refines_partial (H : Hashes) (dl : Nat) {s : State} (hi : Inv s)
     abs (step H dl s (.putObject b k c md cks clen)).1 = (StoreSpec.step H (abs s) (.putObject b k c md cks clen)).1 ∧
     Inv (step H dl s (.putObject b k c md cks clen)).1 := put_refines H dl hi hg
 
+/-- put_object of a (non-directory) key whose side files — the metadata and the checksum record, named after the encoded
+    bucket and key — would not fit a file name: nothing is written, in any state and for any body, and the request is refused;
+    in an existing bucket, for a key the backend maps into it, with `KeyTooLongError` (4f3e079; before, the object file was
+    written and the request then failed with `InternalError`, the store changed by a request that failed). The store accepts
+    such keys: they stay outside `PutOk` (fs:long-key-internal-error stays open, narrowed for put_object to the refusal) -/
+theorem C18_put_long_key_changes_nothing (H : Hashes) (dl : Nat) (s : State) {b k c : Bytes} {md : Option Meta}
+    {cks : Cks} {clen : Option Int} (hslash : endsWithSlash k = false) (hlong : sideTooLong b k false = true) :
+    (step H dl s (.putObject b k c md cks clen)).1 = s ∧
+    (∃ e, (step H dl s (.putObject b k c md cks clen)).2 = .err e) ∧
+    (∀ bd p, bucketDir b = some bd → alHas bd s.buckets = true → keyPath k = some p →
+      (step H dl s (.putObject b k c md cks clen)).2 = .err .KeyTooLongError) := put_long_key H dl s hslash hlong
+
+set_option maxRecDepth 8000 in
+/-- non-vacuity: a key of 200 bytes in bucket `bka` is such a key, and a key of 100 bytes is not -/
+example : endsWithSlash (List.replicate 200 76) = false ∧ sideTooLong [98, 107, 97] (List.replicate 200 76) false = true ∧
+    sideTooLong [98, 107, 97] (List.replicate 100 76) false = false := by decide
+
 /-- get_object, whole and with ANY range (int, open-ended, suffix of any length): the most recently written content,
     metadata, MD5 ETag; for a range the RFC 9110 slice (`rfcInterval`) with `Content-Range` and `Content-Length`,
     `InvalidRange` when unsatisfiable; a missing key is `NoSuchKey`, a missing bucket `NoSuchBucket` (cc244fc; before:
